@@ -376,6 +376,29 @@ def mask_semantics(ip, cn, s):
         return n_s, "?", "?", ("false",), False, f"{len(sets)} store(s) into the mask"
     ev = sets[0]
     loops = [c[1] for c in ev.pc if c[0] == "inloop"]
+    if not loops:
+        # one vectorised store: mask[<list of the valid indices>] = 1 or mask[<boolean array>] = 1
+        ix = ev.data["idx"]
+        one = ev.data["value"] in (C(1), C(True))
+        if ix[0] == "call" and ix[1] in ("builtins.list", "builtins.tuple") and len(ix[2]) == 1:
+            ix = ix[2][0]
+        if ix[0] == "comp" and ix[1] in ("list", "gen") and len(ix[3]) == 1:
+            lid, itr, conds = ix[3][0]
+            if ix[2][0] == ("elem", itr, lid):
+                it_s = cn.show(itr)
+                return n_s, it_s, f"each({it_s})", cn.conj(tuple(conds)), one, \
+                    f"mask[[i for i in {it_s} if {f_show(cn.conj(tuple(conds)))[:200]}]] := 1"
+        if ix[0] == "call" and ix[1] in ("numpy.fromiter", "numpy.array", "numpy.asarray") \
+                and ix[2] and dict(ix[3]).get("dtype") in (("ext", "builtins.bool"),
+                                                           ("ext", "numpy.bool_")):
+            c = ix[2][0]
+            if c[0] == "comp" and c[1] in ("list", "gen") and len(c[3]) == 1 and not c[3][0][2]:
+                lid, itr, _ = c[3][0]
+                it_s = cn.show(itr)
+                cond = cn.formula(c[2][0])
+                return n_s, it_s, f"each({it_s})", cond, one, \
+                    f"mask[bool array of ({f_show(cond)[:200]}) for {it_s}] := 1"
+        return None
     it = cn.show(ip.loops[loops[0]]["iter"]) if len(loops) == 1 else "?"
     idx = cn.show(ev.data["idx"])
     conds = [c for c in ev.pc if c[0] not in ("inloop", "fact") and c[0] != "istype"
